@@ -158,6 +158,43 @@ func c18NoOpWhenEqual(c *Ctx, r *R) {
 	differ := eng.BoolEdges(fn, eng.PSame(eq.Value()), false)
 	absent := eng.BoolEdges(fn, eng.PMethod("IsZero", nil), true)
 	cut := eng.NewCut().AddEdges(differ...).AddEdges(absent...)
+	// conversely the directive is skipped ONLY when the downstream path exists and equals the upstream content:
+	// from the loop body the next directive / success is reached without the copy only through the Equal-true edge
+	{
+		same := eng.BoolEdges(fn, eng.PSame(eq.Value()), true)
+		hs := loopHeads(fn)
+		var lookups []ssa.Instruction
+		for _, k := range eng.CallsTo(fn, false, "pkg/rsl.GetLatestReferenceUpdaterEntry") {
+			lookups = append(lookups, k.Instr)
+		}
+		okSkip := len(same) > 0 && len(lookups) > 0
+		// start after the comparison's operands are known: the block that tests IsZero / Equal
+		for _, e := range eng.BoolEdges(fn, eng.PMethod("IsZero", nil), false) {
+			cutK := eng.NewCut().AddEdges(same...).AddInstrs(cs[0].Instr)
+			if p := eng.FindPath(e.To(), 0, func(in ssa.Instruction) bool { return hs[in] || isSuccessReturn(in) }, cutK); p != nil {
+				okSkip = false
+			}
+		}
+		// every directive is processed: nothing but the loop's own exhaustion (or an error) ends the loop over the directives
+		for _, h := range eng.LoopsOver(fn, eng.PParam("details")) {
+			scanExhaustive(c, r, "all-directives", h, nil, "propagation directives")
+		}
+		r.Check(okSkip, "skip-only-if-equal", fn.Pos(), "a directive is skipped only when the downstream path already equals the upstream content", "a directive can be skipped although the downstream path differs from the upstream content (the no-op test is weakened): propagation silently stops")
+		// the sub-path comparison is made exactly when a sub-path is configured
+		for _, k := range eng.Calls(fn, false) {
+			if k.Method() != "GetPathIDInTree" || !eng.PMethod("GetUpstreamPath", nil)(k.Arg(1)) {
+				continue
+			}
+			ne := eng.RelEdges(fn, token.NEQ, eng.PMethod("GetUpstreamPath", nil), eng.PStr(""))
+			dom := false
+			for _, e := range ne {
+				if eng.EdgeDominates(e, k.Block()) {
+					dom = true
+				}
+			}
+			r.Check(dom, "subpath-compare-iff-configured", k.Pos(), "the upstream sub-tree is compared exactly when an upstream path is configured", "the comparison against the upstream sub-tree is not guarded by `GetUpstreamPath() != \"\"`")
+		}
+	}
 	mustPass(c, r, "copy-only-if-different", fn, isInstr(cs[0].Instr), cut, "the copy is made only when the downstream path is absent or differs", "the copy can be made although the downstream path already holds the upstream content")
 	for _, k := range eng.CallsTo(fn, false, "(*pkg/rsl.PropagationEntry).Commit") {
 		cc := eng.NewCut()
@@ -259,6 +296,34 @@ func c18ReplaceOnlyPath(c *Ctx, r *R) {
 		}
 	}
 	hs := eng.BoolEdges(fn, eng.PCall("strings.HasSuffix", 0, nil, eng.PStr("/")), false)
+	// …on every path to the filter: either the path already ends in "/" (HasSuffix true edge) or "/" was appended
+	{
+		cutS := eng.NewCut().AddEdges(eng.BoolEdges(fn, eng.PCall("strings.HasSuffix", 0, nil, eng.PStr("/")), true)...)
+		for _, b := range fn.Blocks {
+			for _, in := range b.Instrs {
+				if bo, ok := in.(*ssa.BinOp); ok && bo.Op == token.ADD {
+					if sv, isC := eng.ConstString(bo.Y); isC && sv == "/" {
+						cutS.AddInstrs(in)
+					}
+				}
+			}
+		}
+		mustPass(c, r, "prefix-slash-on-every-path", fn, isInstr(filt.Instr), cutS, "the filter prefix ends in '/' on every path to the filter", "the retain filter can be reached with a prefix that does not end in '/' (the `has it a trailing slash` test is inverted or bypassed): sibling paths sharing the downstream path as a name prefix are dropped")
+	}
+	// the sub-path of the upstream tree is taken exactly when a sub-path is configured
+	for _, k := range eng.Calls(fn, false) {
+		if k.Method() != "GetPathIDInTree" {
+			continue
+		}
+		nonEmpty := eng.RelEdges(fn, token.NEQ, eng.PParam("upstreamPath"), eng.PStr(""))
+		dom := false
+		for _, e := range nonEmpty {
+			if eng.EdgeDominates(e, k.Block()) {
+				dom = true
+			}
+		}
+		r.Check(dom && eng.PParam("upstreamPath")(k.Arg(1)), "subpath-iff-configured", k.Pos(), "the upstream sub-tree is selected exactly when an upstream path is configured", "the upstream sub-tree selection is not guarded by `upstreamPath != \"\"` (inverted: the whole tree is copied when a sub-path is configured, and vice versa)")
+	}
 	r.Check(slash && len(hs) > 0, "prefix-has-slash", filt.Pos(), "the filter prefix is <path>/ (foo does not match foobar/…)", "the retain filter no longer appends '/' to the path: sibling directories sharing the prefix are dropped")
 	// new content under localPath
 	under := false
